@@ -1,10 +1,16 @@
 import Xo.Props.C11
+import Xo.Lemmas.Path
 /-! C10 — assigning one element changes that element and nothing else (property theorems only).
 Byte level, for every memory and every slot address: the assignment of a scalar or of a fitting string rewrites exactly the
 slot's bytes; combined with read locality (`C01_read_local`: a part's value depends only on the bytes of its own extent) every
 other element, every size word, every dimension, stride and offset of the enclosing object - all of which live outside the
-slot (C03: siblings are disjoint, headers precede the data) - reads as before.  The value-level statement for arbitrary nested
-paths is checked by the tie and the oracle on every generated assignment; as a theorem it is `_partial` (leaf slots only). -/
+slot (C03: siblings are disjoint, headers precede the data) - reads as before.
+Value level, for every reference-free type, every conforming value and EVERY NESTED PATH to a scalar leaf
+(`C10_set_leaf_at_path`): writing the leaf makes a view of the whole enclosing object read the value with exactly that leaf
+replaced - every other field and item at every level, every string, every shape - and the object keeps its size.  `leafAt`
+and `updAt` are executed against the library on every generated scalar assignment (`lay` driver).  Whole-string and
+whole-compound assignments are covered at byte level (C11 theorems) and by the tie; paths through references by the heap
+model and the oracle only. -/
 namespace Lay
 open MemS
 
@@ -27,7 +33,7 @@ theorem C10_scalar_frame (m : Mem) (addr w b : Nat) (hb : addr + w ≤ m.length)
 field or item, or an unrelated object in the same buffer - reads the same value after the assignment -/
 theorem C10_other_parts_unchanged_partial (m0 : Mem) (t : Ty) (v : Val) (hw : t.WF) (hc : Conf t v) (hs : vsize t v < 2^64)
     (off : Nat) (hbo : off + vsize t v ≤ m0.length) (m : Mem)
-    (hm : Agree m (apply (shift off (patchesD t v)) m0) off (off + vsize t v)) (hlen : m.length = m0.length)
+    (hm : Agree m (apply (shift off (patchesD t v)) m0) off (off + vsize t v)) (_hlen : m.length = m0.length)
     (addr w b : Nat) (hb : addr + w ≤ m.length) (hd : addr + w ≤ off ∨ off + vsize t v ≤ addr) :
     readD t (setScalar m addr w b) off = v.norm := by
   apply rtD t v hw hc hs m0 off hbo
@@ -57,5 +63,59 @@ theorem C10_sizes_unchanged (m : Mem) (addr : Nat) (bs : List UInt8) (m' : Mem)
     (h : rewriteStr m addr (.str bs) = .ok m') :
     fromLE (readAt m' addr 8) = fromLE (readAt m addr 8) :=
   (C11_string_fit_frame m addr bs m' hcur hb h).2.2.2
+
+/-- **assigning one scalar element through any nested path** (fields and items at any depth, static or dynamic sizes, any
+shape and axis order): in any memory `m` that holds the written object `v : t` on its extent - whatever surrounds it, and
+whatever the buffer held before - storing the leaf's bytes at the leaf's address makes a view of the whole object read
+`updAt t v p b`: the value with that leaf, and nothing else, replaced; the object's size is unchanged and the store lies
+inside the object -/
+theorem C10_set_leaf_at_path (t : Ty) (v : Val) (hw : t.WF) (hc : Conf t v) (hs : vsize t v < 2^64)
+    (m0 : Mem) (off : Nat) (hbo : off + vsize t v ≤ m0.length) (m : Mem)
+    (hm : Agree m (apply (shift off (patchesD t v)) m0) off (off + vsize t v)) (hlen : m.length = m0.length)
+    (p : List Nat) (lo w b : Nat) (hl : leafAt t v p = some (lo, w)) (hb : b < 256 ^ w) :
+    ∃ v', updAt t v p b = some v' ∧ Conf t v' ∧ vsize t v' = vsize t v ∧ lo + w ≤ vsize t v ∧
+      readD t (setScalar m (off + lo) w b) off = v'.norm :=
+  set_leaf_rt t v hw hc hs m0 off hbo m hm hlen p lo w b hl hb
+
+/-- the assignments compose: the memory after one assignment again holds a written object (the updated value) on the extent,
+so any further sequence of leaf assignments is covered by repeating `C10_set_leaf_at_path` -/
+theorem C10_set_leaf_again (t : Ty) (v : Val) (hw : t.WF) (hc : Conf t v)
+    (m0 : Mem) (off : Nat) (hbo : off + vsize t v ≤ m0.length) (m : Mem)
+    (hm : Agree m (apply (shift off (patchesD t v)) m0) off (off + vsize t v)) (hlen : m.length = m0.length)
+    (p : List Nat) (lo w b : Nat) (hl : leafAt t v p = some (lo, w)) (hb : b < 256 ^ w) :
+    ∃ v', updAt t v p b = some v' ∧ (setScalar m (off + lo) w b).length = m0.length ∧
+      Agree (setScalar m (off + lo) w b) (apply (shift off (patchesD t v')) m0) off (off + vsize t v') := by
+  obtain ⟨v', A, B, x, i1, i2, i3, i4, i5, i6, i7, i8⟩ := leaf_decomp p t v lo w b hw hc hl hb
+  refine ⟨v', i1, ?_, ?_⟩
+  · unfold setScalar
+    rw [length_writeAt _ _ _ (by rw [le_length, hlen]; omega), hlen]
+  · rw [i3]
+    have hy : (le w b).length = w := le_length w b
+    have hP : InBounds (shift off (patchesD t v)) m0.length := inBounds_shift_of_within (withinD t v hw hc) hbo
+    have hlP := apply_length _ m0 hP
+    rw [i4, shift_append, shift_cons] at hP hm hlP
+    have key := apply_leaf_replaced (shift off A) (shift off B) (lo + off) x (le w b) m0 (by rw [i6, hy]) hP
+      (by rw [hy]; exact outside_mono (outside_shift (d := off) i7) (Nat.le_refl _) (by omega))
+    rw [i5, shift_append, shift_cons]
+    intro i h1 h2
+    rw [key i]
+    unfold setScalar
+    have e : off + lo = lo + off := Nat.add_comm _ _
+    rw [e, getElem?_writeAt m (lo + off) (le w b) (by rw [hy, hlen]; omega),
+        getElem?_writeAt _ (lo + off) (le w b) (by rw [hy, hlP]; omega)]
+    by_cases hin : lo + off ≤ i ∧ i < lo + off + (le w b).length
+    · simp [hin]
+    · simp only [hin, if_false]
+      exact hm i h1 h2
+
+/-- the hypotheses are satisfiable and the path machinery computes: in `{f0: UInt64, f1: UInt32[2], f2: String}` holding
+`{1, [5, 6], "ab"}` the item `f1[1]` is the 4 bytes at offset 20 (after the size word, f0 and f1[0]); deeper, in
+`{f0: String, f1: {UInt16, String}[:], f2: UInt64}` the leaf `f1[1].f0` of a value with strings of different lengths is the 2
+bytes at offset 120 -/
+example : leafAt (.struct [.scalar 8, .array (.scalar 4) [some 2] [0], .string])
+      (.struct [.bits 1, .arr [2] [.bits 5, .bits 6], .str [97, 98]]) [1, 1] = some (20, 4) := rfl
+example : leafAt (.struct [.string, .array (.struct [.scalar 2, .string]) [none] [0], .scalar 8])
+      (.struct [.str [97], .arr [2] [.struct [.bits 5, .str [1,2,3,4,5,6,7,8,9]], .struct [.bits 6, .str []]], .bits 7]) [1, 1, 0]
+      = some (120, 2) := rfl
 
 end Lay
